@@ -519,6 +519,12 @@ func (m *Model) Exec(ctx context.Context, l *Lake, b Backing, op Op) Outcome {
 			return out
 		}
 		live := m.State(tip)
+		// objects vacuumed by an earlier vacuum and brought back by a revert have
+		// no file already (outside the claim: explicitly vacuumed)
+		already := map[ksuid.KSUID]bool{}
+		for id := range m.Vacuumed {
+			already[id] = true
+		}
 		for _, id := range gone {
 			if live[id] {
 				prob("vacuum:removed-live-object", "vacuum removed %s which the branch tip still references", id)
@@ -526,6 +532,9 @@ func (m *Model) Exec(ctx context.Context, l *Lake, b Backing, op Op) Outcome {
 			m.Vacuumed[id] = true
 		}
 		for id := range live {
+			if already[id] {
+				continue
+			}
 			if _, ok := b.Get(DataPath(m.PoolID, id)); !ok {
 				prob("vacuum:live-object-file-missing", "object %s referenced by the tip has no file after vacuum", id)
 			}
